@@ -246,6 +246,8 @@ EXTRA_MODULES = {
     "C02": ["Reach", "C02Sem", "C02Amp"],
     "C09": ["Reach"],
     "C16": ["C16Proj"],
+    "C05": ["PostSel"],
+    "C07": ["PostSel"],
 }
 
 
